@@ -984,7 +984,16 @@ func runCase(phase string, i int) worker.Result {
 			tag = h.subjects[o.Subj].Tag
 		}
 		if o.Class == "idxdel" && !explained(tag, "idxdel") {
-			res.Violate("unexplained-index-delete-error", fmt.Sprintf("%s of referrer %d returned a referrers-index-delete error although no DELETE of a superseded index for %.19s was made to fail: %s", o.Op, o.Ref, tag, o.Err), witness(nil))
+			key, what := "unexplained-index-delete-error", fmt.Sprintf("%s of referrer %d returned a referrers-index-delete error although no DELETE of a superseded index for %.19s was made to fail: %s", o.Op, o.Ref, tag, o.Err)
+			for _, f := range faultsNow {
+				if f.Fired && f.Tag == tag && f.Emptied {
+					// the only failed DELETE removed the index because the list had become empty:
+					// nothing was pushed, the failed DELETE was the update itself
+					key = "index-delete-error-before-update:emptied-index"
+					what = fmt.Sprintf("%s of referrer %d returned a referrers-index-delete error, but the failed DELETE was the removal of the (emptied) index itself: no new index had been pushed, the update did not take effect: %s", o.Op, o.Ref, o.Err)
+				}
+			}
+			res.Violate(key, what, witness(nil))
 			break
 		}
 		if o.Class == "err" && !explained(tag, "err") {
